@@ -31,6 +31,12 @@
 (*             A call is two steps (Call, Return) and the sentences are       *)
 (*             action properties over the Return step, which still sees the   *)
 (*             call's arguments.                                              *)
+(*   PairSpec  TWO tile positions of one PyramidIO with up to two live        *)
+(*             buffers (results of read_image(default = "masked") or bodies   *)
+(*             of update_image contexts, possibly nested, possibly for the    *)
+(*             same position) under Open / Mutate / Close; what happens to    *)
+(*             one live buffer never shows in the other, and a position is    *)
+(*             persisted with exactly what was put into ITS buffer.           *)
 EXTENDS Integers, Sequences, FiniteSets, SequencesExt, TLC
 
 CONSTANTS H, W,          \* buffer / image grid
@@ -42,7 +48,9 @@ CONSTANTS H, W,          \* buffer / image grid
           ExploreFrom,   \* calls are explored from these contents only (Tiles: from everything reachable)
           FancySel,      \* the pointwise (integer-array) indexers offered to Fill
           Formats,       \* storage formats explored by FileSpec
-          FileTiles      \* the tiles offered to Write
+          FileTiles,     \* the tiles offered to Write
+          PairModes,     \* modes explored by PairSpec
+          PairSrc        \* the source images PairSpec fills / updates live buffers from
 
 AllClasses == {"RGB", "RGBA", "Float", "F16x3", "Int"}
 N == H * W
@@ -55,7 +63,7 @@ Flat(y, x) == y * W + x + 1
 Larger(a, b) == IF a >= b THEN a ELSE b
 
 ASSUME Classes \subseteq AllClasses /\ ImgForms \subseteq {"slice", "rev"}
-ASSUME SrcTiles \subseteq Tiles /\ PriorTiles \subseteq Tiles /\ FileTiles \subseteq Tiles
+ASSUME SrcTiles \subseteq Tiles /\ PriorTiles \subseteq Tiles /\ FileTiles \subseteq Tiles /\ PairSrc \subseteq Tiles
 
 -----------------------------------------------------------------------------
 (* Indexers.  (TLCEval is the identity; it makes TLC tabulate a function     *)
@@ -166,14 +174,21 @@ GotMasked(m) == [kind |-> "image", mode |-> BufMode(m), px |-> AllU, sz |-> "ful
 
 -----------------------------------------------------------------------------
 VARIABLES cls, buf,                \* BufSpec: mode class, buffer contents
-          fmt, file, got, fcall    \* FileSpec: pyramid format, the tile file, result of the last read, pending call
+          fmt, file, got, fcall,   \* FileSpec: pyramid format, the tile file, result of the last read, pending call
+          pmode, pfile, phand      \* PairSpec (with fmt): image mode, the two tile files, the two live buffers
 bvars == <<cls, buf>>
 fvars == <<fmt, file, got, fcall>>
-vars == <<cls, buf, fmt, file, got, fcall>>
+pvars == <<pmode, pfile, phand>>
+vars == <<cls, buf, fmt, file, got, fcall, pmode, pfile, phand>>
 
 NoF == [op |-> "none", mode |-> "none", px |-> AllU]
+Positions == {1, 2}
+Handles == {1, 2}
+Closed == [pos |-> 0, px |-> AllU]                          \* no live buffer in this slot
 BufFrozen == cls = "RGBA" /\ buf = AllU
-FileFrozen == fmt = "none" /\ file = Absent /\ got = NoGot /\ fcall = NoF
+OneFileFrozen == file = Absent /\ got = NoGot /\ fcall = NoF
+PairFrozen == pmode = "none" /\ pfile = [p \in Positions |-> Absent] /\ phand = [k \in Handles |-> Closed]
+FileFrozen == fmt = "none" /\ OneFileFrozen /\ PairFrozen
 
 \* ---- the buffer machine
 \* a call: ix = index into IdxSeq, src = index into SrcSeqOf[cls]
@@ -193,11 +208,11 @@ BNext == /\ \/ buf' \in PriorTiles                              \* a buffer read
             \/ buf \in ExploreFrom /\ buf' = Apply(cls, buf, ClearCall)
             \/ buf \in ExploreFrom /\ \E j \in 1..Len(IdxSeq), k \in 1..Len(SrcSeqOf[cls]) : buf' = Apply(cls, buf, FillCall(j, k))
             \/ buf \in ExploreFrom /\ \E j \in 1..NRect, k \in 1..Len(SrcSeqOf[cls]) : buf' = Apply(cls, buf, UpdateCall(j, k))
-         /\ UNCHANGED cls /\ UNCHANGED fvars
+         /\ UNCHANGED cls /\ UNCHANGED fvars /\ UNCHANGED pvars
 BufSpec == BInit /\ [][BNext]_vars
 
 \* ---- the tile-file machine
-FInit == fmt \in Formats /\ file = Absent /\ got = NoGot /\ fcall = NoF /\ BufFrozen
+FInit == fmt \in Formats /\ file = Absent /\ got = NoGot /\ fcall = NoF /\ BufFrozen /\ PairFrozen
 FCall == /\ fcall.op = "none"
          /\ \/ fcall' = [op |-> "readnone", mode |-> "none", px |-> AllU]
             \/ \E m \in Modes : fcall' = [op |-> "readmasked", mode |-> m, px |-> AllU]
@@ -212,8 +227,33 @@ GotAfter(f, cl) == CASE cl.op = "write" -> NoGot
                      [] cl.op = "readmasked" -> IF f = Absent THEN GotMasked(cl.mode) ELSE GotFile(f)
 FRet == /\ fcall.op # "none"
         /\ file' = FileAfter(file, fcall) /\ got' = GotAfter(file, fcall) /\ fcall' = NoF /\ UNCHANGED fmt
-FNext == (FCall \/ FRet) /\ UNCHANGED bvars
+FNext == (FCall \/ FRet) /\ UNCHANGED bvars /\ UNCHANGED pvars
 FileSpec == FInit /\ [][FNext]_vars
+
+\* ---- two tile positions, two live buffers, one PyramidIO
+\* A live buffer is what read_image(pos, default = "masked", masked_mode = pmode) returned, or what an update_image
+\* context yielded: the stored tile, or a cleared maskable buffer when the tile is missing.  It is then filled / updated
+\* from source images (whole-tile indexers) and finally persisted: write_image(pos, buffer) resp. leaving the context.
+\* Contexts may be nested, closed in any order, and both buffers may belong to the same position.
+PairSrcSeq == SetToSeq({s \in PairSrc : SrcOK(ClassOf(pmode), s)})
+WholePairs == TLCEval([i \in 1..N |-> <<i, i>>])
+PInit == /\ fmt \in Formats /\ pmode \in PairModes \cap CanHold[fmt]
+         /\ pfile = [p \in Positions |-> Absent] /\ phand = [k \in Handles |-> Closed]
+         /\ BufFrozen /\ OneFileFrozen
+Persisted(px) == IF Masked(BufMode(pmode), px) THEN Absent ELSE [mode |-> BufMode(pmode), px |-> px]   \* write_image
+OpenTo(k, p) == [phand EXCEPT ![k] = [pos |-> p, px |-> IF pfile[p] = Absent THEN AllU ELSE pfile[p].px]]
+MutTo(k, op, s) == [phand EXCEPT ![k].px = IF op = "fill" THEN FillOp(ClassOf(pmode), @, WholePairs, s)
+                                                          ELSE UpdateOp(ClassOf(pmode), @, WholePairs, s)]
+CloseFiles(k) == [pfile EXCEPT ![phand[k].pos] = Persisted(phand[k].px)]
+CloseHands(k) == [phand EXCEPT ![k] = Closed]
+POpen(k, p) == phand[k] = Closed /\ phand' = OpenTo(k, p) /\ UNCHANGED pfile
+PMutate(k, op, s) == phand[k] # Closed /\ phand' = MutTo(k, op, s) /\ UNCHANGED pfile
+PClose(k) == phand[k] # Closed /\ pfile' = CloseFiles(k) /\ phand' = CloseHands(k)
+PNext == /\ \/ \E k \in Handles, p \in Positions : POpen(k, p)
+            \/ \E k \in Handles, op \in {"fill", "update"}, i \in 1..Len(PairSrcSeq) : PMutate(k, op, PairSrcSeq[i])
+            \/ \E k \in Handles : PClose(k)
+         /\ UNCHANGED <<fmt, pmode>> /\ UNCHANGED bvars /\ UNCHANGED <<file, got, fcall>>
+PairSpec == PInit /\ [][PNext]_vars
 
 -----------------------------------------------------------------------------
 (* The sentences of C15.                                                     *)
@@ -289,4 +329,25 @@ OtherTilesStoredAsWritten == [][(FReturns("write") /\ ~Masked(fcall.mode, fcall.
 StoredTileReadsBackIdentical == [][(FReads /\ file # Absent) =>
     got'.kind = "image" /\ got'.mode = file.mode /\ got'.px = file.px /\ got'.sz = "tile"]_vars
 ReadsDoNotTouchTheFile == [][FReads => file' = file]_vars
+
+\* ---- two positions, two live buffers
+PTypeOK == /\ \A p \in Positions : pfile[p].px \in Tiles /\ pfile[p].mode \in {"none", BufMode(pmode)}
+           /\ \A k \in Handles : phand[k].px \in Tiles /\ phand[k].pos \in Positions \cup {0}
+
+\* the buffers handed out are independent: no step changes the pixels of both, and a step that opens, mutates or
+\* persists one buffer leaves the other exactly as it was ("never changes a pixel outside the addressed rectangle")
+LiveBuffersAreIndependent == [][phand'[1] = phand[1] \/ phand'[2] = phand[2]]_vars
+
+\* "a missing tile reads back ... as an all-undefined tile on request" - every time, whatever else is alive
+MissingTileOpensAllUndefined == [][\A k \in Handles :
+    (phand[k] = Closed /\ phand'[k] # Closed /\ pfile[phand'[k].pos] = Absent) => IsAllU(phand'[k].px)]_vars
+
+\* a position is persisted with what is in ITS buffer when that buffer is closed; no other step touches a tile file
+PositionStoredFromItsOwnBuffer == [][
+    /\ \A k \in Handles : (phand[k] # Closed /\ phand'[k] = Closed) =>
+           /\ pfile'[phand[k].pos] = Persisted(phand[k].px)
+           /\ \A p \in Positions \ {phand[k].pos} : pfile'[p] = pfile[p]
+    /\ (\A k \in Handles : ~(phand[k] # Closed /\ phand'[k] = Closed)) => pfile' = pfile]_vars
+
+PairAllUndefinedNeverStored == \A p \in Positions : pfile[p].mode \in Maskable => ~IsAllU(pfile[p].px)
 =============================================================================
